@@ -1,7 +1,8 @@
-(** C05 - persist then load is the identity on the map.
-    Statements only; proofs are in CodecRT.v / Reload.v. *)
+(** C05 - persist then load is the identity on the map, for both node formats.
+    Statements only; proofs are in CodecRT.v / CodecV1.v / Reload.v (generic in the format [f]);
+    in the world-level theorem at the end every tree has its own format. *)
 From Coq Require Import List NArith ZArith Bool.
-From Mast Require Import WorldInv Prim Key Tree KeyOrder Codec CodecRT Store Diff World Erase Build Spec Canon Links Level Inv Persist Hist Reload.
+From Mast Require Import WorldInv Prim Key Tree KeyOrder Codec CodecRT CodecV1 Store Diff World Erase Build Spec Canon Links Level Inv Persist Hist Reload.
 Import ListNotations.
 
 (** the compact binary node format round-trips for arbitrary element bodies (keys, values: any
@@ -16,6 +17,23 @@ Proof. exact decode_encode_bin. Qed.
 Theorem C05_uvarint_roundtrip : forall n r, small n -> read_uvarint (uvarint n ++ r) = Some (n, r).
 Proof. exact uvarint_rt. Qed.
 
+(** the v1marshaler node format (default JSON marshaler) round-trips: keys and values are JSON value
+    texts as encoding/json emits them ([elem_ok]: non-empty, brackets and strings closed, no comma
+    outside them), child names are nil or non-empty text that needs no escaping, one more link than keys *)
+Theorem C05_v1_roundtrip : forall keys vals links,
+  length vals = length keys -> length links = S (length keys) -> v1_links_ok links ->
+  Forall (fun e => elem_ok e = true) keys -> Forall (fun e => elem_ok e = true) vals ->
+  decode_v1 (encode_v1 keys vals links) = Some (keys, vals, links).
+Proof. exact decode_encode_v1. Qed.
+
+(** ... the JSON text of every integer, byte-slice and mast.Key key is such an element, of a string
+    key if it has no quote or backslash, of any other key type if its marshaled text is one; and every
+    node name is text that needs no escaping *)
+Theorem C05_v1_key_texts : forall k, key_v1_ok k -> elem_ok (kmarshal k) = true.
+Proof. exact kmarshal_elem_ok. Qed.
+Theorem C05_v1_names : forall b, plain (name_of b) = true.
+Proof. exact name_plain. Qed.
+
 (** Persisting a tree of ANY residency mix (in-memory nodes, nodes already in the store, or both)
     and loading the returned root from the resulting store yields a tree with exactly the same entries
     (it is the canonical tree of the same list), hence the same size, height and branch factor; and both
@@ -23,28 +41,42 @@ Proof. exact uvarint_rt. Qed.
     Hypotheses, as in the property: the element encoding round-trips and sizes fit 64 bits
     ([list_ok]); additionally no two different byte strings written share a name ([nocoll]: BLAKE2b
     collision freeness, which cannot be proved). *)
-Theorem C05_persist_then_load : forall s kind bf m l t rt m',
-  kcanon bf m l -> root_allh s kind m -> list_ok kind l ->
-  make_root FBin m = (t, Ok (rt, m')) -> nocoll s t ->
+Theorem C05_persist_then_load : forall f s kind bf m l t rt m',
+  kcanon bf m l -> root_allh f s kind m -> list_ok f kind l ->
+  make_root f m = (t, Ok (rt, m')) -> nocoll s t ->
   oks (load_mast (apply_stores s t) kind rt)
-      (fun r => fst r = FBin /\ kcanon bf (snd r) l /\ root_allh (apply_stores s t) kind (snd r)) /\
-  kcanon bf m' l /\ root_allh (apply_stores s t) kind m'.
+      (fun r => fst r = f /\ kcanon bf (snd r) l /\ root_allh f (apply_stores s t) kind (snd r)) /\
+  kcanon bf m' l /\ root_allh f (apply_stores s t) kind m'.
 Proof. exact persist_then_load. Qed.
+
+(** [list_ok] spelled out per format: the binary format takes every key/value whose key encoding
+    round-trips and whose lengths fit 64 bits; the v1marshaler format those whose texts are elements *)
+Theorem C05_list_ok_binary : forall kind l,
+  Forall (fun kv => key_rt kind (fst kv) /\ small_list (kmarshal (fst kv)) /\ small_list (snd kv)) l ->
+  small (N.of_nat (S (length l))) -> list_ok FBin kind l.
+Proof. intros kind l H Hs. split; [exact H|exact Hs]. Qed.
+Theorem C05_list_ok_v1 : forall kind l,
+  Forall (fun kv => key_rt kind (fst kv) /\ key_v1_ok (fst kv) /\ elem_ok (snd kv) = true) l ->
+  small (N.of_nat (S (length l))) -> list_ok FV1 kind l.
+Proof.
+  intros kind l H Hs. split; [|exact Hs]. eapply Forall_impl; [|exact H]. intros kv (A & B & C).
+  split; [exact A|]. split; [exact (kmarshal_elem_ok _ B)|exact C].
+Qed.
 
 (** The reloaded tree can be modified and persisted again with all the same guarantees, for any
     number of insert / update / delete / persist-and-reload cycles: every step succeeds and the tree
     stays the canonical tree of the abstract map. *)
-Theorem C05_cycles : forall kind bf ops st l,
-  pinv kind bf st l -> pconds kind bf st l ops ->
-  exists st', prun kind bf st ops = Some st' /\ pinv kind bf st' (aprun l ops).
+Theorem C05_cycles : forall f kind bf ops st l,
+  pinv f kind bf st l -> pconds f kind bf st l ops ->
+  exists st', prun f kind bf st ops = Some st' /\ pinv f kind bf st' (aprun l ops).
 Proof. exact cycles_ok. Qed.
 
 (** every operation keeps the hash links of a tree resolvable in its store *)
-Theorem C05_insert_keeps_links : forall s kind bf m k v, root_allh s kind m ->
-  okp (insert _ _ kcmp bytes_eqb (klayer bf) m k v) (root_allh s kind).
+Theorem C05_insert_keeps_links : forall f s kind bf m k v, root_allh f s kind m ->
+  okp (insert _ _ kcmp bytes_eqb (klayer bf) m k v) (root_allh f s kind).
 Proof. exact insert_allh. Qed.
-Theorem C05_delete_keeps_links : forall s kind bf m k v, root_allh s kind m ->
-  okp (delete _ _ kcmp bytes_eqb (klayer bf) m k v) (root_allh s kind).
+Theorem C05_delete_keeps_links : forall f s kind bf m k v, root_allh f s kind m ->
+  okp (delete _ _ kcmp bytes_eqb (klayer bf) m k v) (root_allh f s kind).
 Proof. exact delete_allh. Qed.
 
 (** non-vacuity: the hypotheses hold for concrete keys of every kind, and a concrete three-level
@@ -63,32 +95,77 @@ Example C05_example :
   nth 13%nat r ObOk = ObNum 4.
 Proof. vm_compute. repeat split; reflexivity. Qed.
 
-(** The root returned by MakeRoot stays loadable from every store that extends the resulting one
-    (other trees keep persisting into it), with the same contents, size, height and branch factor *)
-Theorem C05_root_stays_loadable : forall s s' kind bf (m : kmast) l t rt m',
-  kcanon bf m l -> root_allh s kind m -> list_ok kind l ->
-  make_root FBin m = (t, Ok (rt, m')) -> nocoll s t -> extends (apply_stores s t) s' ->
-  oks (load_mast s' kind rt) (fun r => fst r = FBin /\ kcanon bf (snd r) l /\ root_allh s' kind (snd r)).
+(** non-vacuity for the v1marshaler format: the cycle theorem's hypotheses hold for a concrete run
+    (insert three entries with int keys and JSON values, persist and reload, delete one, insert another,
+    persist and reload again) from the empty tree with branch factor 2, and the run ends with the
+    expected contents *)
+Definition ex_v1_ops : list pop :=
+  [PIns (KInt 4%Z) [34;97;34]; PIns (KInt 2%Z) [91;49;44;50;93]; PIns (KInt 8%Z) [123;34;120;34;58;110;117;108;108;125];
+   PPersistReload; PDel (KInt 2%Z) [91;49;44;50;93]; PIns (KInt 1%Z) [116;114;117;101]; PPersistReload].
+Definition ex_v1_st : pstate := ([], Mast (LPtr (fresh_node key val)) 0 0 2 (1 * 2) 1 false).
+Example C05_example_v1 :
+  pinv FV1 0 2 ex_v1_st [] /\ pconds FV1 0 2 ex_v1_st [] ex_v1_ops /\
+  aprun [] ex_v1_ops = [(KInt 1%Z, [116;114;117;101]); (KInt 4%Z, [34;97;34]); (KInt 8%Z, [123;34;120;34;58;110;117;108;108;125])] /\
+  exists st', prun FV1 0 2 ex_v1_st ex_v1_ops = Some st' /\ to_list _ _ (m_root _ _ (snd st')) = aprun [] ex_v1_ops.
 Proof.
-  intros s s' kind bf m l t rt m' C H Hl E Hn Hx.
-  exact (load_good s' kind bf l rt (good_root_mono _ s' kind bf l rt Hx (proj1 (make_root_good s kind bf m l t rt m' C H Hl E Hn)))).
+  split; [|split; [|split]].
+  - split; [exact (empty_canon key val kcmp (klayer 2) 2 false ltac:(discriminate))|].
+    split; [constructor; apply allh_fresh|]. split; [constructor|unfold small; reflexivity].
+  - apply pcondsb_ok. vm_compute. reflexivity.
+  - vm_compute. reflexivity.
+  - eexists. split; vm_compute; reflexivity.
 Qed.
 
-(** ... and inside histories with many trees and many stores: see C01_refines_sorted_map, whose
-    supported operations include MakeRoot and LoadMast of any captured root *)
+(** The root returned by MakeRoot stays loadable from every store that extends the resulting one
+    (other trees keep persisting into it), with the same contents, size, height and branch factor *)
+Theorem C05_root_stays_loadable : forall f s s' kind bf (m : kmast) l t rt m',
+  kcanon bf m l -> root_allh f s kind m -> list_ok f kind l ->
+  make_root f m = (t, Ok (rt, m')) -> nocoll s t -> extends (apply_stores s t) s' ->
+  oks (load_mast s' kind rt) (fun r => fst r = f /\ kcanon bf (snd r) l /\ root_allh f s' kind (snd r)).
+Proof.
+  intros f s s' kind bf m l t rt m' C H Hl E Hn Hx.
+  exact (load_good f s' kind bf l rt (good_root_mono f _ s' kind bf l rt Hx (proj1 (make_root_good f s kind bf m l t rt m' C H Hl E Hn)))).
+Qed.
+
+(** ... and inside histories with many trees and many stores, each tree of either node format: see
+    C01_refines_sorted_map, whose supported operations include MakeRoot and LoadMast of any captured root *)
 Theorem C05_in_histories : forall ops w a,
   winv2 w a -> conds w a ops ->
   map (fun x => pobs (fst x)) (run w ops) = arun2 a ops /\ winv2 (wrun w ops) (awrun2 a ops).
 Proof. exact history_refines2. Qed.
 
-(** PARTIAL: the v1marshaler (JSON) node format and the Root record's JSON form are modelled
-    byte-exactly (Codec.v) and compared with the implementation on every run, but their round trip is
-    not proved; caches are outside the model. *)
+(** non-vacuity at the world level: a v1marshaler tree and a binary tree over one store, each
+    persisted, reloaded, modified, persisted again and diffed against its earlier version; the side
+    conditions hold (decided by [condsb]) and the implementation model observes what the abstract
+    world observes *)
+Definition ex_ops_both : list op :=
+  [ONew 0 0 2 (Some FV1) 1; ONew 5 0 3 None 1;
+   OIns 0 (KUint 1) [49]; OIns 0 (KUint 2) [34;120;34]; OIns 0 (KUint 4) [91;49;44;50;93]; OIns 5 (KUint 1) [0;255]; OIns 5 (KUint 9) [];
+   OMakeRoot 0 0; OMakeRoot 5 1; OLoad 0 1 0 1; OLoad 1 6 0 1;
+   OIns 1 (KUint 8) [110;117;108;108]; ODel 1 (KUint 1) [49]; OIns 6 (KUint 3) [7]; OMakeRoot 1 2; OMakeRoot 6 3;
+   ODiff 1 (Some 0); ODiff 6 (Some 5); OLoad 2 2 0 1; OIter 2; OLoad 3 7 0 1; OIter 7].
+Example C05_example_both_formats :
+  conds empty_world ([], []) ex_ops_both /\
+  nth 19%nat (arun2 ([], []) ex_ops_both) BOk = BList [(KUint 2, [34;120;34]); (KUint 4, [91;49;44;50;93]); (KUint 8, [110;117;108;108])] /\
+  nth 21%nat (arun2 ([], []) ex_ops_both) BOk = BList [(KUint 1, [0;255]); (KUint 3, [7]); (KUint 9, [])] /\
+  map (fun x => pobs (fst x)) (run empty_world ex_ops_both) = arun2 ([], []) ex_ops_both.
+Proof. split; [apply condsb_ok; vm_compute; reflexivity|]. vm_compute. repeat split; reflexivity. Qed.
+
+(** PARTIAL: the Root record's JSON form is modelled byte-exactly (Codec.v) and compared with the
+    implementation on every run, but its round trip is not proved; custom marshalers and caches are
+    outside the model. *)
 Print Assumptions C05_binary_roundtrip.
 Print Assumptions C05_uvarint_roundtrip.
+Print Assumptions C05_v1_roundtrip.
+Print Assumptions C05_v1_key_texts.
+Print Assumptions C05_v1_names.
+Print Assumptions C05_list_ok_binary.
+Print Assumptions C05_list_ok_v1.
 Print Assumptions C05_persist_then_load.
 Print Assumptions C05_cycles.
+Print Assumptions C05_example_v1.
 Print Assumptions C05_insert_keeps_links.
 Print Assumptions C05_delete_keeps_links.
 Print Assumptions C05_root_stays_loadable.
 Print Assumptions C05_in_histories.
+Print Assumptions C05_example_both_formats.
